@@ -22,3 +22,54 @@ Definition bfd_wellformed (buf : list N) : Prop :=
   24 <= len buf /\ nth_error buf 3 = Some (len buf) /\
   (exists b0, nth_error buf 0 = Some b0 /\ b0 / 32 = 1) /\
   (exists b1, nth_error buf 1 = Some b1 /\ b1 / 64 <= 3).
+
+(* ---- Stream decoders (RTR, BGP): the property text, clause by clause, for a
+   decoder [dec] driven as in Model/Stream.v. *)
+From RB Require Import Model.Stream.
+
+Section StreamSpec.
+  Context {M E : Type}.
+  Variable dec : list N -> dres M E.
+
+  (* "it never panics" *)
+  Definition never_panics : Prop := forall buf, dec buf <> DPanic.
+
+  (* "never loops without consuming input": a returned message took a
+     non-empty prefix of the buffer away *)
+  Definition consumes_input : Prop :=
+    forall buf m rest, dec buf = DMsg m rest ->
+      (length rest < length buf)%nat /\ exists used, buf = used ++ rest.
+
+  (* "a complete frame in the buffer is always either consumed or rejected";
+     [complete] is the protocol's framing rule *)
+  Definition complete_frame_decided (complete : list N -> Prop) : Prop :=
+    forall buf, complete buf -> dec buf <> DNeed.
+
+  (* and more bytes are requested only while the frame is incomplete *)
+  Definition need_only_if_incomplete (complete : list N -> Prop) : Prop :=
+    forall buf, dec buf = DNeed -> ~ complete buf.
+
+  (* the driver of Model/Stream.v never observes a spin and never runs out of
+     its own iteration bound *)
+  Definition clean (l : list (ev M E)) : Prop := ~ In EvSpin l /\ ~ In EvFuel l.
+
+  (* "arbitrary fragmentation of the stream": two ways of cutting the same
+     byte string into chunks deliver the same messages and the same final error *)
+  Definition fragmentation_invariant : Prop :=
+    forall cs1 cs2 : list (list N), cs1 <> [] -> cs2 <> [] -> concat cs1 = concat cs2 ->
+      exists e1 e2, run_stream dec cs1 = Some e1 /\ run_stream dec cs2 = Some e2 /\
+                    clean e1 /\ clean e2 /\
+                    msgs_of e1 = msgs_of e2 /\ err_of e1 = err_of e2.
+End StreamSpec.
+
+(* RTR framing rule (RFC 8210 section 5): 8-byte header whose bytes 4..7 are the
+   PDU length; the frame is complete once that many bytes are buffered.  A
+   header announcing fewer than 8 bytes is complete (and invalid). *)
+Definition rtr_length_field (buf : list N) : option N :=
+  match buf with
+  | _ :: _ :: _ :: _ :: a :: b :: c :: d :: _ => Some (be32 a b c d)
+  | _ => None
+  end.
+
+Definition rtr_complete (buf : list N) : Prop :=
+  exists l, rtr_length_field buf = Some l /\ l <= len buf.
